@@ -26,3 +26,10 @@ def run(ctx) -> None:
     field_rules = [r for r in res if r.role == "deref-field" and r.rule.split(".")[0] in ("G4", "G5", "A1", "P2")]
     report(ctx, field_rules, "C06.D2", prefixes=("G", "A", "P"))
     table_check(ctx, "C06.D1.normaliser-rows", make_interp(ctx.p))
+    # the operand the normaliser sees is one whole k(a,b,c): the splitter never cuts inside parentheses, wherever the
+    # memory operand stands in the operand list (shared with C09.N3), and nothing is added to the normalised list
+    from ._parser import instr_patterns, operands_from_operand_group, split_rule
+    Ip = make_interp(ctx.p)
+    split_rule(ctx, "C06.D1.memory-operand-reaches-normaliser-whole", Ip)
+    _paths, _sites, _pats = instr_patterns(Ip)
+    operands_from_operand_group(ctx, "C06.D1.operands-only-from-operand-group", Ip, _sites)
